@@ -100,6 +100,12 @@ Proof.
   intros g r r' Hg (a & b & -> & ->). destruct (wsne_head g Hg) as (w & g' & -> & Hw).
   exists a, b, ((w :: g') ++ b). repeat split. right. right. exists w, (g' ++ b). split; [reflexivity|exact Hw].
 Qed.
+Definition ws_head (g : list N) : Prop := exists w g', g = w :: g' /\ is_ws w = true.
+Lemma sim_of_ins_head : forall g r r', ws_head g -> ins g r r' -> sim r r'.
+Proof.
+  intros g r r' (w & g' & -> & Hw) (a & b & -> & ->).
+  exists a, b, ((w :: g') ++ b). repeat split. right. right. exists w, (g' ++ b). split; [reflexivity|exact Hw].
+Qed.
 Lemma sim_of_ws_led : forall r r', ws_led r' -> sim r r'.
 Proof.
   intros r [|w r'] H; exists [], r; [exists []|exists (w :: r')]; cbn; repeat split; auto.
